@@ -59,8 +59,50 @@ def candidates(tree):
             yield n, ast.unparse(n.func.value), "case-fold-removed"
         elif isinstance(n, ast.Call) and isinstance(n.func, ast.Name) and n.func.id == "wait" and len(n.args) == 1:
             yield n, ast.unparse(n.args[0]), "wait-removed"
-        elif isinstance(n, ast.Return) and n.value is not None and isinstance(n.value, ast.Constant) and n.value.value in (b"", 0):
-            pass
+        # ---- second set of operators (--ops b)
+        if OPS == "b":
+            if isinstance(n, ast.Call) and len(n.args) >= 2 and not n.keywords and all(isinstance(a, (ast.Name, ast.Attribute, ast.Subscript)) for a in n.args[:2]) \
+                    and ast.unparse(n.args[0]) != ast.unparse(n.args[1]):
+                m = ast.Call(n.func, [n.args[1], n.args[0]] + n.args[2:], [])
+                yield n, ast.unparse(m), "args-swapped"
+            if isinstance(n, (ast.Tuple, ast.List)) and 2 <= len(n.elts) <= 12 and isinstance(getattr(n, "ctx", None), ast.Load) and all(isinstance(e, ast.Constant) for e in n.elts):
+                for i in (0, len(n.elts) - 1):
+                    m = type(n)([e for j, e in enumerate(n.elts) if j != i], ast.Load())
+                    yield n, ast.unparse(m), "element-dropped"
+            if isinstance(n, ast.Constant) and isinstance(n.value, str):
+                v = n.value
+                if v in ("emit_address", "rel_address"):
+                    yield n, repr("rel_address" if v == "emit_address" else "emit_address"), "state-key-swapped"
+                if v in ("local_symbol_prefix", "internal_symbol_prefix"):
+                    yield n, repr("internal_symbol_prefix" if v == "local_symbol_prefix" else "local_symbol_prefix"), "state-key-swapped"
+                par = getattr(n, "_p", None)
+                if isinstance(par, ast.Call) and isinstance(par.func, ast.Attribute) and par.func.attr in ("regex", "compile", "match", "fullmatch", "sub") and par.args and par.args[0] is n:
+                    if "+" in v:
+                        i = v.rindex("+")
+                        yield n, repr(v[:i] + "*" + v[i + 1:]), "regex-plus-to-star"
+                    if "*" in v:
+                        i = v.rindex("*")
+                        yield n, repr(v[:i] + "+" + v[i + 1:]), "regex-star-to-plus"
+                    if "\\b" in v:
+                        yield n, repr(v.replace("\\b", "", 1)), "regex-boundary-dropped"
+                    if "(?!" in v:
+                        i = v.index("(?!")
+                        j = v.index(")", i)
+                        yield n, repr(v[:i] + v[j + 1:]), "regex-lookahead-dropped"
+                if len(v) == 1 and v in "<>()[]{}:=,;#@'\"/$._":
+                    pass
+            if isinstance(n, ast.Name) and isinstance(n.ctx, ast.Load) and n.id in ("min", "max") and isinstance(getattr(n, "_p", None), ast.Call):
+                yield n, "max" if n.id == "min" else "min", "minmax"
+            if isinstance(n, ast.keyword) and n.arg in ("maybe", "lookahead", "unsigned", "awaited", "pure", "token", "raw", "no_dot", "skip_whitespace_before", "case_sensitive") and isinstance(n.value, ast.Constant) and isinstance(n.value.value, bool):
+                pass    # covered by the bool operator
+            if isinstance(n, ast.Return) and isinstance(n.value, ast.Tuple) and len(n.value.elts) == 2:
+                m = ast.Return(ast.Tuple([n.value.elts[1], n.value.elts[0]], ast.Load()))
+                yield n, ast.unparse(m), "return-pair-swapped"
+            if isinstance(n, ast.Subscript) and isinstance(n.slice, ast.Constant) and isinstance(n.slice.value, int) and n.slice.value in (0, 1, -1) and isinstance(n.ctx, ast.Load):
+                alt = {0: -1, 1: 0, -1: 0}[n.slice.value]
+                yield n, ast.unparse(ast.Subscript(n.value, ast.Constant(alt), ast.Load())), "index-changed"
+            if isinstance(n, ast.ExceptHandler) and n.type is not None and isinstance(n.type, ast.Tuple) and len(n.type.elts) >= 2:
+                pass
 
 
 def apply(src, node, repl):
@@ -79,13 +121,23 @@ def apply(src, node, repl):
     return "\n".join(head) + repl + "\n".join(tail)
 
 
+FIRST_SET = {"cmp", "binop", "const+1", "const-1", "bool", "boolop", "not-removed", "neg-removed", "cond-negated", "ifexp-swapped", "call-deleted", "augassign-deleted", "continue-deleted",
+             "break-deleted", "slice-lower+1", "slice-upper-1", "case-fold-removed", "wait-removed"}
+OPS = "a"
+
+
 def enumerate_mutants(modules):
     out = []
     for m in modules:
         path = os.path.join(REPO, "pdpy11", m + ".py")
         src = open(path, encoding="utf-8").read()
         tree = ast.parse(src)
+        for n_ in ast.walk(tree):
+            for c_ in ast.iter_child_nodes(n_):
+                c_._p = n_
         for node, repl, kind in candidates(tree):
+            if (OPS == "b") == (kind in FIRST_SET):
+                continue
             try:
                 new = apply(src, node, repl)
                 ast.parse(new)
@@ -181,7 +233,10 @@ def main():
     ap.add_argument("--retest", default="")
     ap.add_argument("--skip-seen", default="", dest="skip_seen")
     ap.add_argument("--status", default="GAP,undecided-exit2")
+    ap.add_argument("--ops", default="a")
     a = ap.parse_args()
+    global OPS
+    OPS = a.ops
     mods = a.modules.split(",") if a.modules else ["architecture", "bk_encoding", "bk_wav", "builtins", "compiler", "containers", "context", "deferred", "devices", "formats", "insns",
                                                      "metacommand_impl", "metacommands", "operators", "parser", "radix50", "reports", "types", "_cli"]
     allm = enumerate_mutants(mods)
